@@ -92,6 +92,10 @@ impl Engine {
                 let (n, l, r) = (self.m.n, self.m.l, self.m.rewards);
                 self.op_resume(sender, n, l, r)
             }
+            AdminOp::ResumeRewardOnly { r } => {
+                let (n, l) = (self.m.n, self.m.l);
+                self.op_resume(sender, n, l, *r)
+            }
             AdminOp::UpdateConfig(secs) => self.op_update_config(sender, secs),
             AdminOp::FeeWithdraw { amount } => self.op_fee_withdraw(sender, *amount),
             AdminOp::FeeWithdrawPct { pct } => {
